@@ -571,11 +571,82 @@ pub fn unicode_position_sweep(worker: usize, workers: usize, sink: &mut Sink) {
     }
 }
 
+/// Every ordered TRIPLE of the 263 action values printed back to back (18.2 M triples): whatever the
+/// printer remembers from the previous one or two values must not leak into the next text.
+pub fn display_triples(worker: usize, workers: usize, sink: &mut Sink) {
+    let t = tables();
+    let acts: Vec<Action> = (0..263u16).map(|c| t.act_by_code[c as usize]).collect();
+    let texts: Vec<String> = (0..263u16).map(code_text).collect();
+    let mut n = 0u64;
+    for i in (worker..263).step_by(workers.max(1)) {
+        for j in 0..263usize {
+            let r = guard("action round trip", || {
+                let mut bad: Option<(usize, usize, String)> = None;
+                for k in 0..263usize {
+                    let (x, y, z) = (acts[i].to_string(), acts[j].to_string(), acts[k].to_string());
+                    if bad.is_none() && (x != texts[i] || y != texts[j] || z != texts[k]) {
+                        bad = Some((j, k, format!("{} {} {}", x, y, z)));
+                    }
+                }
+                bad
+            });
+            n += 263;
+            match r {
+                Err(p) => string_violation(sink, "C16", "printer_panicked", "Action", &texts[i], format!("site={} msg={:?}", p.site, p.msg)),
+                Ok(Some((j2, k2, got))) => string_violation(sink, "C16", "printed_text_depends_on_previous_prints", "Action", &format!("{} {} {}", texts[i], texts[j2], texts[k2]), format!("printed back to back as {:?}", got)),
+                Ok(None) => {}
+            }
+        }
+    }
+    sink.add("display_triples", n);
+}
+
+/// Short parse HISTORIES: for every move token T, every one-character token X and a set of tokens Y
+/// derived from them (file letter, rank digit, direction letter, prefixes, suffixes, NUL-padded forms,
+/// another move from the same square), every sequence of four parses over {T, X, Y} - each parse judged
+/// against the reference grammar. Parsers that remember recent tokens are thereby driven through
+/// every hit / miss / promotion pattern of a small cache.
+pub fn parse_histories(worker: usize, workers: usize, sink: &mut Sink) {
+    let mut n = 0u64;
+    for tc in (worker..256).step_by(workers.max(1)) {
+        let t_ = code_text(tc as u16);
+        let tch: Vec<char> = t_.chars().collect();
+        let other = code_text((tc as u16 / 4) * 4 + ((tc as u16 + 1) % 4));
+        for x in ["p", "r", "c", "d", "h", "m", "e", "R", "E"] {
+            let ys: Vec<String> = vec![
+                tch[0].to_string(),
+                tch[1].to_string(),
+                tch[2].to_string(),
+                tch[..2].iter().collect(),
+                tch[1..].iter().collect(),
+                format!("{}\0\0", x),
+                format!("{}\0", t_),
+                other.clone(),
+                t_.to_uppercase(),
+            ];
+            for y in &ys {
+                let w = [t_.as_str(), x, y.as_str()];
+                for seq in 0..81usize {
+                    let mut q = seq;
+                    for _ in 0..4 {
+                        judge_notation(w[q % 3], sink);
+                        q /= 3;
+                        n += 1;
+                    }
+                }
+            }
+        }
+    }
+    sink.add("parse_history_parses", n);
+}
+
 pub fn run_w10(random_n: u64, seed: u64, worker: usize, workers: usize, sink: &mut Sink) {
     unicode_position_sweep(worker, workers, sink);
     if worker == 0 {
         judge_value_spaces(sink);
     }
+    display_triples(worker, workers, sink);
+    parse_histories(worker, workers, sink);
     let hostile: Vec<String> = ALPHABET.iter().map(|s| s.to_string()).collect();
     exhaustive_strings(&hostile, 4, worker, workers, "exhaustive_hostile_alphabet_len_le_4", sink);
     let ascii: Vec<String> = (0x20u8..0x7f).map(|b| (b as char).to_string()).collect();
